@@ -357,6 +357,19 @@ class Body:
             if x["k"] == "Ret":
                 rets.append(x)
                 continue
+            if x["k"] in ("Break", "Continue"):
+                # leaves the statement only when the loop it targets is outside the statement
+                inner_loop = False
+                for a in self.ancestors(x):
+                    if a is top:
+                        inner_loop = inner_loop or a["k"] in ("For", "While", "Loop")
+                        break
+                    if a["k"] in ("For", "While", "Loop"):
+                        inner_loop = True
+                        break
+                if not inner_loop and x is not top:
+                    rets.append(x)
+                continue
             stack.extend(c for _, c in kids(x))
         if not rets:
             st["_nx"] = out
